@@ -554,7 +554,7 @@ func (p *Core) genAsyncAck() []sim.Op {
 			other = append(other, ps)
 		}
 	}
-	kind := []string{"ok", "fail"}[w.Intn(2)]
+	kind := []string{"ok", "fail", "ok", "fail", "bad"}[w.Intn(5)]
 	if len(async) > 0 && w.Chance(0.7) {
 		ps := async[w.Intn(len(async))]
 		reps := int64(1 + w.Pick(60, 30, 10))
